@@ -206,6 +206,17 @@ namespace vlog {
         }
         g_t0 = std::chrono::steady_clock::now();
         std::set_terminate(on_terminate);
+        // a library that calls exit() on an internal error must not lose the history either
+        std::atexit([] {
+            static bool done = false;
+            if (done) return;
+            done = true;
+            FILE* f = g_path.empty() ? stdout : std::fopen(g_path.c_str(), "a");
+            if (!f) return;
+            flush_to(f, false);
+            std::fprintf(f, "{\"seq\":%llu,\"e\":\"exit\"}\n", (unsigned long long) g_seq.fetch_add(1));
+            std::fflush(f);
+        });
         for (int s : {SIGSEGV, SIGABRT, SIGBUS, SIGFPE, SIGILL}) std::signal(s, on_signal);
     }
 
